@@ -74,6 +74,13 @@ def native(tier, seed, scratch):
     cov["samples"].append(dict(native_driver="drive %d <shard> %d %d" % (maxlen, nsh, seed + 1),
                                first_configuration="len1=1 len2=1 window=0 psi=none options=none ndim=2 inner=squared",
                                buffers="exact-size malloc per call, ASan redzone 256"))
+    try:
+        fc = native_build.drive_coverage(tree, out, seed + 3)
+        cov["c_function_line_coverage_percent_of_lines"] = {k: v for k, v in sorted(fc.items())}
+        cov["counters"]["c_functions_reached"] = sum(1 for v in fc.values() if v[0] > 0)
+        cov["counters"]["c_functions_not_reached"] = sum(1 for v in fc.values() if v[0] == 0)
+    except Exception as e:       # coverage is evidence only, never a verdict
+        cov["coverage_error"] = repr(e)[:300]
     if tier == "thorough":
         vexe = native_build.drive(tree, out, "plain")
         vp = [subprocess.Popen(["valgrind", "-q", "--error-exitcode=9", "--track-origins=no", str(vexe), "4", str(sh), "8",
